@@ -213,6 +213,39 @@ class Ctx(object):
                 self._fixed[key] = (e, v)  # keeps e alive: ids stay unique
                 return v
 
+    def concretize_bv(self, e):
+        """fork over the feasible values of a bit-vector expression (signed);
+        stays inside the BV theory (no bv2int in the path condition)"""
+        s = z3.simplify(e)
+        if z3.is_bv_value(s):
+            return s.as_signed_long()
+        key = ('bv', e.get_id())
+        if key in self._fixed:
+            return self._fixed[key][1]
+        tries = 0
+        while True:
+            tries += 1
+            if tries > self.max_concretize:
+                raise PathLimit('more than %d values for one concretised '
+                                'expression' % self.max_concretize)
+            i = len(self.decisions)
+            if i < len(self.prefix):
+                kind, v = self.prefix[i]
+                assert kind == 'v', (kind, v, i)
+                self._record(('v', v))
+            else:
+                r = self._check()
+                if r != 'sat':
+                    if r == 'unsat':
+                        raise PathAbort()
+                    raise SolverUnknown('concretize_bv')
+                v = self.solver.model().eval(e, model_completion=True)
+                v = v.as_signed_long()
+                self._record(('v', v))
+            if self.branch(e == z3.BitVecVal(v, e.size())):
+                self._fixed[key] = (e, v)
+                return v
+
     def model(self, extra=()):
         r = self._check(*extra)
         if r != 'sat':
@@ -252,7 +285,10 @@ class Ctx(object):
             self.queries += 1
             if r == 'sat':
                 return 'sat', self.model_inputs(es.model())
-            return r, None
+            if r == 'unsat':
+                return r, None
+            # 'unknown' from the eager pipeline (e.g. the SAT tactic gives
+            # up on model reconstruction): ask the default solver too
         self.solver.push()
         try:
             self.solver.add(z3.Not(prop))
@@ -1170,7 +1206,7 @@ class SymBVInt(Sym):
         return self
 
     def __index__(self):
-        return cur().concretize(z3.BV2Int(self.e, True))
+        return cur().concretize_bv(self.e)
     __int__ = __index__
 
     def __bool__(self):
